@@ -547,8 +547,17 @@ func (env *Env) elabCall(e *SCall) Val {
 					t = types.NewPointer(t)
 				}
 				v := env.elab(e.Args[1])
-				if v.S.K != KRef || ex.sortOf(t).K != KRef {
-					elabFail("cast only between reference types")
+				if v.S.K != KRef {
+					elabFail("cast: the argument must be an interface/reference value")
+				}
+				if ts := ex.sortOf(t); ts.K != KRef {
+					// a value type stored in an interface: the same unboxing term a type assertion uses
+					unbox := "unbox_" + sanitize(ts.Name)
+					ex.declare("(declare-fun " + unbox + " (Ref) " + ts.Name + ")")
+					if ts.K == KString {
+						env.strs = true
+					}
+					return Val{T: app(unbox, v.T), S: ts, GoT: t}
 				}
 				v.GoT = t
 				return v
@@ -879,10 +888,13 @@ func (ex *Exec) lookupGoType(pkg *types.Package, name string) types.Type {
 		}
 		return nil
 	}
-	if pkg == nil {
-		return nil
+	if pkg != nil {
+		if tn, ok := pkg.Scope().Lookup(name).(*types.TypeName); ok {
+			return tn.Type()
+		}
 	}
-	if tn, ok := pkg.Scope().Lookup(name).(*types.TypeName); ok {
+	// predeclared types (string, int, bool, error, ...)
+	if tn, ok := types.Universe.Lookup(name).(*types.TypeName); ok {
 		return tn.Type()
 	}
 	return nil
